@@ -126,6 +126,9 @@ func genArchiveSel(r *rand.Rand, n int) int {
 
 func (cliSim) Gen(prop, tier string, r *rand.Rand) interface{} {
 	l := genLayout(r, pick(r, "tiny", "small", "small", "small", "edge", "four"))
+	if (prop == "C18" || prop == "C08" || prop == "C09") && chance(r, 0.15) {
+		l = genLayout(r, "page")
+	}
 	c := &CliCase{Clock0: genClock0(r, l), SchedSeed: r.Uint64()}
 	vmode := r.IntN(3)
 	switch prop {
@@ -176,6 +179,20 @@ func (cliSim) Gen(prop, tier string, r *rand.Rand) interface{} {
 					c.Files[i].Fills = nil
 				}
 			}
+		}
+	}
+	if chance(r, 0.25) {
+		c.Cmd.BaseStyle = pick(r, "slash", "dot", "dslash")
+	}
+	if prop == "C09" && chance(r, 0.25) {
+		c.Cmd.SrcRemote = true
+	}
+	if prop == "C20" && c.Cmd.Fill && c.EnvFault == "" && chance(r, 0.3) {
+		// F3: the clock ticks while generate is running
+		c.Tick = &TickFault{G: "A0", Y: uint64(between(r, 1, 4000)), D: between(r, 1, 3)}
+		if chance(r, 0.7) {
+			a := l.Archs[r.IntN(len(l.Archs))]
+			c.Clock0 = c.Clock0 - c.Clock0%a.S + a.S - 1
 		}
 	}
 	if chance(r, 0.15) && (prop == "C08" || prop == "C10" || prop == "C11") {
@@ -478,7 +495,11 @@ func (cliSim) Run(e *Env, ci interface{}) {
 			return
 		}
 	}
-	r := newCliRunner(e, c.SchedSeed, 0, false)
+	// a non-UTC process time zone must not show in any output
+	oldLocal := time.Local
+	time.Local = time.FixedZone("SIM", int(c.SchedSeed%27-12)*1800)
+	defer func() { time.Local = oldLocal }()
+	r := newCliRunner(e, c.SchedSeed, 0, c.Cmd.SrcRemote || c.Cmd.DstRemote)
 	defer r.close()
 	if c.Tick != nil {
 		fired := false
